@@ -368,7 +368,6 @@ REWARD_B = {"rename": {"next_whirlpool_reward_growth_global": "next_whirlpool_re
             "field_map": {"next_reward_growth_global": "reward_infos"}}
 PTA = "pinocchio::state::whirlpool::tick_array::"
 PAIRS = [
-    dict(a="manager::whirlpool_manager::next_whirlpool_liquidity", b=PM + "pino_next_whirlpool_liquidity"),
     dict(a="manager::tick_manager::next_tick_modify_liquidity_update", b=PM + "pino_next_tick_modify_liquidity_update",
          nb={"arg_map": {"reward_growth_global": "to_reward_growths(reward_infos)"}},
          exempt={r"^tick$": "unchanged copy: Anchor converts via From<Tick> for TickUpdate (checked by the name-copy rule R3), Pinocchio copies field-wise",
@@ -557,7 +556,7 @@ def R5_ported_pairs(run):
     for pr in PAIRS:
         compare_pair(run, "R5", pr["a"], pr["b"], keys=pr.get("keys", ALL), subs_b=pr.get("subs_b", ()), exempt=pr.get("exempt", {}),
                      norm_a=pr.get("na"), norm_b=pr.get("nb"), semantic=pr.get("semantic"))
-    run.floor("R5", "ported pairs", len(PAIRS), 25)
+    run.floor("R5", "ported pairs", len(PAIRS), 24)
 
 
 def R6_cross_checks(run):
